@@ -12,9 +12,11 @@
 (* Time: the code runs under a virtual clock in the conformance harness.    *)
 (* The model keeps, per waiting job, the number of ticks since acceptance   *)
 (* (saturating); a start timer fires exactly when due (urgent), asynchronous *)
-(* goroutine steps (cancel delivery, first scheduler pass, completion) run  *)
-(* before the client can act again ("quiescence"), scheduler polls are not  *)
-(* tied to ticks (the poll period is much shorter than a start delay).      *)
+(* goroutine steps (cancel delivery, first scheduler pass, completion, the  *)
+(* persist loop's save) run before the client can act again                *)
+(* ("quiescence"); scheduler polls are not tied to ticks (the poll period   *)
+(* is much shorter than a start delay); the 3 s pauses of the persist loop  *)
+(* and of the shutdown poll end at a LongAdv step.                          *)
 (*                                                                         *)
 (* Deliberate abstractions are listed in /verif/DESIGN.md section 4.2.      *)
 (***************************************************************************)
@@ -29,37 +31,40 @@ CONSTANTS
   MaxReloads,
   MaxTicks,    \* bound on Tick steps
   BadKinds,    \* subset of {"none", "reserved"}
-  MaxOps,      \* bound on client operations (schedule/cancel/reload/save/..), keeps the graph finite
+  MaxOps,      \* bound on client operations (schedule/cancel/save/...), keeps the graph finite
   Gen,         \* TRUE: record the controllable steps in hist (script generation by simulation)
-  Features     \* subset of {"cancel", "unknowncancel", "save", "shutdown", "restart"}
+  Features     \* subset of {"cancel", "unknowncancel", "save", "persist", "shutdown", "restart"}
 
-Nil == 0
-DMAX == 2      \* ticks are counted up to the largest delay in the catalogue
+DMAX == 2      \* ticks are counted up to the largest delay / retention period in the catalogue
 
 VARIABLES
   cfgv,        \* [1..NP -> version id or 0]     r.defs
   epoch,       \* [1..NP -> Nat]                  number of reloads seen by the pipeline
-  job,         \* sequence of job records         r.jobsByID (index = acceptance order)
+  job,         \* sequence of job records         r.jobsByID / jobsByPipeline (index = acceptance order)
   stage,       \* [job -> [task -> status]]       scheduler's own stage status
   sched,       \* [job -> [pc, cancelled, lastErr]]
   running,     \* [job -> set of tasks with an open Run]  (runner wait group)
   rctx,        \* [job -> BOOLEAN]                runner context cancelled
   cancelPending, \* set of jobs whose cancel goroutine has not run yet
   waitList,    \* [1..NP -> Seq(job)]             r.waitListByPipeline
-  shut,        \* "no" | "begun" | "forced" | "returned"
+  shut,        \* "no" | "begun" | "forced" | "finishing" | "returned"      Shutdown() progress
+  store,       \* [job -> persisted record]       content of the data store (last save)
+  logs,        \* [job -> BOOLEAN]                the job has a log directory
+  persist,     \* [req : BOOLEAN, pc : "idle" | "sleeping", stale : BOOLEAN]   persist loop (1-slot request channel, 3 s
+               \* pause); stale: the runner was restarted and has not saved yet (loading marks jobs canceled without a save request)
   nops, nreloads, nticks,
   \* history variables (observations of the injected runner and of API results)
-  runs,        \* [job -> [task -> [begun, outcome, begunTick, endTick]]]
-  stop,        \* [job -> [n, begunBefore]]
+  runs,        \* [job -> [task -> record]]
+  stop,        \* [job -> record]
   ack,         \* [job -> record]
   last,        \* last client operation and its result
   ev,          \* last event
   obs,         \* = ObsSt, the observable vocabulary of the current state (stored so that TLC computes it once)
   pre,         \* vocabulary at the last quiescent state strictly before this one
-  clock,       \* constant 0 (the recorded traces carry real timestamps in begunAt/endedAt)
+  clock,       \* 0; set to 1 by the script emitter of the Sim_* modules
   hist         \* controllable steps taken so far (script generation)
 
-vars == <<cfgv, epoch, job, stage, sched, running, rctx, cancelPending, waitList, shut,
+vars == <<cfgv, epoch, job, stage, sched, running, rctx, cancelPending, waitList, shut, store, logs, persist,
           nops, nreloads, nticks, runs, stop, ack, last, ev, obs, pre, clock, hist>>
 
 -----------------------------------------------------------------------------
@@ -95,7 +100,7 @@ ResolveAction(jb, wl, p, ignoreDelay) ==
 Schedulable(p) == ResolveAction(job, waitList, p, FALSE) \in {"replace", "queue", "start"}
 
 -----------------------------------------------------------------------------
-(* startJob / startJobsOnWaitList on a bundle S = [job, wl, sched, stage] *)
+(* startJob / startJobsOnWaitList on a bundle S = [job, wl, sched] *)
 
 GraphBad(jb, j) == VerTable[jb[j].ver].cyclic \/ jb[j].bad = "reserved"
 GraphErr(jb, j) == IF jb[j].bad = "reserved" THEN "reserved" ELSE "cycle"
@@ -125,15 +130,21 @@ ApplyBundle(S) == /\ job' = S.job /\ waitList' = S.wl /\ sched' = S.sched
 (* quiescence: the client (driver) acts only when no goroutine can run and no timer is due *)
 
 TimerDue(j) == job[j].timer = "armed" /\ job[j].el >= Ver(j).delay
-Quiescent == /\ cancelPending = {}
-             /\ \A j \in Jobs : sched[j].pc \notin {"fresh", "exited"} /\ ~TimerDue(j)
-             /\ shut \notin {"polling"}
+NoneRunning == \A j \in Jobs : ~(job[j].present /\ IsRunning(job, j))
+GoroutinesIdle == cancelPending = {} /\ \A j \in Jobs : sched[j].pc \notin {"fresh", "exited"}
+\* Shutdown returns (wg.Wait() passes, final save) once the poll saw nothing running (graceful: ShutdownBegin itself
+\* or a LongAdv step; forced: at once) and no job goroutine (not even that of a purged job) or cancel goroutine is left
+ShutdownCanFinish == shut \in {"finishing", "forced"} /\ cancelPending = {} /\ \A j \in Jobs : sched[j].pc \in {"none", "done"}
+PersistDue == "persist" \in Features /\ persist.req /\ persist.pc = "idle"
+Quiescent == /\ GoroutinesIdle
+             /\ \A j \in Jobs : ~TimerDue(j)
+             /\ ~PersistDue
+             /\ ~ShutdownCanFinish
 
 -----------------------------------------------------------------------------
 (* observable vocabulary (refinement mapping for Props) *)
 
-StatusOf(j, t) == job[j].rep[t].status
-TaskObs(j, t) == [present |-> TRUE, pos |-> t, status |-> StatusOf(j, t),
+TaskObs(j, t) == [present |-> TRUE, pos |-> t, status |-> job[j].rep[t].status,
                   hasStart |-> runs[j][t].begun > 0 /\ ~Ver(j).tasks[t].empty, startAt |-> 0,
                   hasEnd |-> FALSE, endAt |-> 0,
                   errored |-> job[j].rep[t].errored, canceled |-> job[j].rep[t].canceled, exit |-> 0]
@@ -145,11 +156,19 @@ JobObs(j) == [p |-> job[j].p, ver |-> job[j].ver, epoch |-> job[j].epoch,
               completed |-> job[j].completed, canceled |-> job[j].canceled,
               errored |-> \E t \in Tasks(j) : job[j].rep[t].errored,
               lastErr |-> job[j].lastErr, hasEnd |-> job[j].completed, endAt |-> BASE,
-              createdAt |-> j, ntasks |-> Len(Ver(j).tasks), extraTasks |-> 0,
-              tasks |-> [t \in Tasks(j) |-> TaskObs(j, t)], jsonAgree |-> TRUE]
+              createdAt |-> 2 * j, age |-> job[j].age, ntasks |-> Len(Ver(j).tasks), extraTasks |-> 0,
+              tasks |-> [t \in Tasks(j) |-> TaskObs(j, t)], jsonAgree |-> TRUE, faithful |-> TRUE, lost |-> job[j].lost, rst |-> job[j].rst]
 RunObs(j, t) == [begun |-> runs[j][t].begun, refused |-> 0, open |-> t \in running[j], outcome |-> runs[j][t].outcome,
-                 begunAt |-> runs[j][t].begunAt, endedAt |-> runs[j][t].endedAt, cmdOk |-> TRUE, envOk |-> TRUE,
-                 execAtBegin |-> runs[j][t].execAtBegin, execAtEnd |-> runs[j][t].execAtEnd, unknown |-> FALSE]
+                 begunAt |-> 0, endedAt |-> 0, cmdOk |-> TRUE, envOk |-> TRUE,
+                 execAtBegin |-> runs[j][t].execAtBegin, execAtEnd |-> runs[j][t].execAtEnd,
+                 goneAtBegin |-> runs[j][t].goneAtBegin, goneAtEnd |-> runs[j][t].goneAtEnd, unknown |-> FALSE]
+\* the persisted fields of a job as they are reported now
+Persisted(jb, j) == [completed |-> jb[j].completed, canceled |-> jb[j].canceled, started |-> jb[j].started,
+                     lastErr |-> jb[j].lastErr, rep |-> jb[j].rep]
+StoreObs(j) == IF store[j].present
+               THEN [present |-> TRUE, completed |-> store[j].rec.completed, canceled |-> store[j].rec.canceled,
+                     started |-> store[j].rec.started, same |-> job[j].present /\ store[j].rec = Persisted(job, j)]
+               ELSE [present |-> FALSE, completed |-> FALSE, canceled |-> FALSE, started |-> FALSE, same |-> FALSE]
 Phase == IF shut = "no" THEN "run" ELSE "shutdown"
 ObsSt == [now |-> BASE, phase |-> Phase, quiet |-> Quiescent,
           cfg |-> [p \in P |-> [def |-> Def(p), ver |-> cfgv[p], epoch |-> epoch[p]]],
@@ -159,7 +178,13 @@ ObsSt == [now |-> BASE, phase |-> Phase, quiet |-> Quiescent,
           runs |-> [j \in Jobs |-> [t \in Tasks(j) |-> RunObs(j, t)]],
           stop |-> [j \in Jobs |-> stop[j]],
           ack |-> [j \in Jobs |-> ack[j]],
-          extra |-> 0, last |-> last, shut |-> IF shut = "no" THEN "no" ELSE IF shut = "returned" THEN "returned" ELSE "begun"]
+          extra |-> 0, xlogs |-> 0,
+          store |-> [loaded |-> TRUE, extra |-> 0, jobs |-> [j \in Jobs |-> StoreObs(j)]],
+          logs |-> [j \in Jobs |-> logs[j]],
+          idle |-> IF persist.req \/ persist.pc = "sleeping" \/ persist.stale \/ "persist" \notin Features THEN 0 ELSE 5000,
+          last |-> last,
+          shut |-> IF shut = "no" THEN "no" ELSE IF shut = "returned" THEN "returned" ELSE "begun",
+          forced |-> last.forced]
 
 Pr == INSTANCE Props WITH st <- obs, ev <- ev, pre <- pre, tbl <- VerTable
 
@@ -169,7 +194,7 @@ PreNext == pre' = IF obs.quiet THEN obs ELSE pre
 -----------------------------------------------------------------------------
 (* initial state *)
 
-NoLast == [op |-> "none", p |-> 0, j |-> 0, t |-> 0, o |-> "", res |-> "ok", err |-> "", new |-> 0]
+NoLast == [op |-> "none", p |-> 0, j |-> 0, t |-> 0, o |-> "", res |-> "ok", err |-> "", new |-> 0, forced |-> FALSE]
 NoEv == [k |-> "Reset", j |-> 0, t |-> 0, o |-> ""]
 
 Init ==
@@ -179,6 +204,8 @@ Init ==
   /\ cancelPending = {}
   /\ waitList = [p \in P |-> <<>>]
   /\ shut = "no"
+  /\ store = <<>> /\ logs = <<>>
+  /\ persist = [req |-> FALSE, pc |-> "idle", stale |-> FALSE]
   /\ nops = 0 /\ nreloads = 0 /\ nticks = 0
   /\ runs = <<>> /\ stop = <<>> /\ ack = <<>>
   /\ last = NoLast /\ ev = NoEv
@@ -187,9 +214,13 @@ Init ==
   /\ obs = ObsSt
   /\ pre = obs
 
+HStep(op, p, j, t, o, v, bad) == [op |-> op, p |-> p, j |-> j, t |-> t, o |-> o, v |-> v, bad |-> bad]
 Step(s) == hist' = IF Gen THEN Append(hist, s) ELSE hist
 NoStep == hist' = hist
-Ticked == clock' = clock
+ReqPersist == persist' = [persist EXCEPT !.req = TRUE]
+OpEv(j, t, o) == ev' = [k |-> "Op", j |-> j, t |-> t, o |-> o]
+ClientOk == Quiescent /\ clock = 0
+KeepForced(l) == [l EXCEPT !.forced = last.forced]
 
 -----------------------------------------------------------------------------
 (* ScheduleAsync(p) *)
@@ -198,19 +229,19 @@ NewJob(p, bad) ==
   LET v == CurDef(p) IN
   [p |-> p, ver |-> cfgv[p], epoch |-> epoch[p], bad |-> bad, present |-> TRUE,
    started |-> FALSE, completed |-> FALSE, canceled |-> FALSE, lastErr |-> "", creq |-> FALSE,
-   timer |-> IF v.delay > 0 THEN "armed" ELSE "none", el |-> 0, startEl |-> 0,
+   timer |-> IF v.delay > 0 THEN "armed" ELSE "none", el |-> 0, startEl |-> 0, age |-> 0, lost |-> FALSE, rst |-> FALSE,
    rep |-> [t \in 1 .. Len(v.tasks) |-> [status |-> "waiting", errored |-> FALSE, canceled |-> FALSE]]]
 
 Schedule(p, bad) ==
-  /\ Quiescent /\ nops < MaxOps
+  /\ ClientOk /\ nops < MaxOps
   /\ nops' = nops + 1
   /\ LET act == IF shut # "no" THEN "shutdown" ELSE IF ~Def(p) THEN "undefined"
                 ELSE ResolveAction(job, waitList, p, FALSE)
          n == Len(job) + 1
      IN
      IF act \in {"shutdown", "undefined", "noqueue", "queuefull"}
-     THEN /\ last' = [NoLast EXCEPT !.op = "schedule", !.p = p, !.res = "err", !.err = act]
-          /\ UNCHANGED <<job, stage, sched, running, rctx, waitList, runs, stop, ack>>
+     THEN /\ last' = KeepForced([NoLast EXCEPT !.op = "schedule", !.p = p, !.res = "err", !.err = act])
+          /\ UNCHANGED <<job, stage, sched, running, rctx, waitList, runs, stop, ack, store, logs, persist>>
      ELSE /\ n <= MaxJobs
           /\ LET v == CurDef(p)
                  nt == Len(v.tasks)
@@ -227,16 +258,19 @@ Schedule(p, bad) ==
                 /\ stage' = Append(stage, [t \in 1 .. nt |-> "waiting"])
                 /\ running' = Append(running, {})
                 /\ rctx' = Append(rctx, FALSE)
-                /\ runs' = Append(runs, [t \in 1 .. nt |-> [begun |-> 0, outcome |-> "none", begunAt |-> 0, endedAt |-> 0, execAtBegin |-> FALSE, execAtEnd |-> FALSE]])
+                /\ runs' = Append(runs, [t \in 1 .. nt |-> [begun |-> 0, outcome |-> "none", execAtBegin |-> FALSE, execAtEnd |-> FALSE, goneAtBegin |-> FALSE, goneAtEnd |-> FALSE]])
                 /\ stop' = Append(stop, [n |-> 0, at |-> 0, begunBefore |-> [t \in 1 .. nt |-> FALSE], openBefore |-> [t \in 1 .. nt |-> FALSE]])
                 /\ ack' = Append(ack, [n |-> 0, at |-> 0, wasStarted |-> FALSE, wasFinished |-> FALSE,
                                        okAtAck |-> [t \in 1 .. nt |-> FALSE], openAtAck |-> [t \in 1 .. nt |-> FALSE],
                                        failedAtAck |-> FALSE, stopBefore |-> FALSE])
+                /\ store' = Append(store, [present |-> FALSE])
+                /\ logs' = Append(logs, FALSE)
+                /\ ReqPersist
                 /\ last' = [NoLast EXCEPT !.op = "schedule", !.p = p, !.new = n]
-  /\ ev' = [k |-> "Op", j |-> 0, t |-> 0, o |-> ""]
-  /\ Step([op |-> "schedule", p |-> p, j |-> 0, t |-> 0, o |-> "", v |-> 0, bad |-> bad])
-  /\ PreNext /\ Ticked
-  /\ UNCHANGED <<cfgv, epoch, cancelPending, shut, nreloads, nticks>>
+  /\ OpEv(0, 0, "")
+  /\ Step(HStep("schedule", p, 0, 0, "", 0, bad))
+  /\ PreNext
+  /\ UNCHANGED <<cfgv, epoch, cancelPending, shut, nreloads, nticks, clock>>
 
 -----------------------------------------------------------------------------
 (* CancelJob(id) -> cancelJobInternal *)
@@ -260,33 +294,34 @@ AckRec(j) ==
         stopBefore |-> stop[j].n > 0]
 
 Cancel(j) ==
-  /\ Quiescent /\ nops < MaxOps /\ "cancel" \in Features
+  /\ ClientOk /\ nops < MaxOps /\ "cancel" \in Features
   /\ nops' = nops + 1
   /\ j \in Jobs \/ (j = Len(job) + 1 /\ "unknowncancel" \in Features)
   /\ IF j \notin Jobs \/ ~job[j].present
-     THEN /\ last' = [NoLast EXCEPT !.op = "cancel", !.j = 0, !.res = "err", !.err = "notfound"]
-          /\ UNCHANGED <<job, sched, waitList, cancelPending, ack>>
+     THEN /\ last' = KeepForced([NoLast EXCEPT !.op = "cancel", !.j = 0, !.res = "err", !.err = "notfound"])
+          /\ UNCHANGED <<job, sched, waitList, cancelPending, ack, persist>>
      ELSE IF job[j].canceled
-     THEN /\ last' = [NoLast EXCEPT !.op = "cancel", !.j = j]
+     THEN /\ last' = KeepForced([NoLast EXCEPT !.op = "cancel", !.j = j])
           /\ ack' = [ack EXCEPT ![j] = AckRec(j)]
-          /\ UNCHANGED <<job, sched, waitList, cancelPending>>
+          /\ UNCHANGED <<job, sched, waitList, cancelPending, persist>>
      ELSE IF job[j].completed
-     THEN /\ last' = [NoLast EXCEPT !.op = "cancel", !.j = j, !.res = "err", !.err = "completed"]
-          /\ UNCHANGED <<job, sched, waitList, cancelPending, ack>>
+     THEN /\ last' = KeepForced([NoLast EXCEPT !.op = "cancel", !.j = j, !.res = "err", !.err = "completed"])
+          /\ UNCHANGED <<job, sched, waitList, cancelPending, ack, persist>>
      ELSE IF ~job[j].started
      THEN /\ ApplyBundle(CancelNotStarted(Bundle, j))
-          /\ last' = [NoLast EXCEPT !.op = "cancel", !.j = j]
+          /\ last' = KeepForced([NoLast EXCEPT !.op = "cancel", !.j = j])
           /\ ack' = [ack EXCEPT ![j] = AckRec(j)]
+          /\ ReqPersist
           /\ UNCHANGED cancelPending
      ELSE /\ cancelPending' = cancelPending \cup {j}
           /\ job' = [job EXCEPT ![j].creq = TRUE]
-          /\ last' = [NoLast EXCEPT !.op = "cancel", !.j = j]
+          /\ last' = KeepForced([NoLast EXCEPT !.op = "cancel", !.j = j])
           /\ ack' = [ack EXCEPT ![j] = AckRec(j)]
-          /\ UNCHANGED <<sched, waitList>>
-  /\ ev' = [k |-> "Op", j |-> j, t |-> 0, o |-> ""]
-  /\ Step([op |-> "cancel", p |-> 0, j |-> j, t |-> 0, o |-> "", v |-> 0, bad |-> "none"])
-  /\ PreNext /\ Ticked
-  /\ UNCHANGED <<cfgv, epoch, stage, running, rctx, shut, nreloads, nticks, runs, stop>>
+          /\ UNCHANGED <<sched, waitList, persist>>
+  /\ OpEv(j, 0, "")
+  /\ Step(HStep("cancel", 0, j, 0, "", 0, "none"))
+  /\ PreNext
+  /\ UNCHANGED <<cfgv, epoch, stage, running, rctx, shut, store, logs, nreloads, nticks, runs, stop, clock>>
 
 -----------------------------------------------------------------------------
 (* the cancel goroutine: Scheduler.Cancel() = set flag; runner.Cancel() = cancel context and   *)
@@ -300,17 +335,21 @@ CancelDeliver(j) ==
   /\ LET R == running[j]
          hard == \E t \in R : ~Ver(j).tasks[t].allow
      IN /\ stage' = [stage EXCEPT ![j] = [t \in DOMAIN @ |-> IF t \in R THEN (IF Ver(j).tasks[t].allow THEN "done" ELSE "error") ELSE @[t]]]
-        /\ job' = [job EXCEPT ![j].rep = [t \in DOMAIN @ |-> IF t \in R THEN [@[t] EXCEPT !.canceled = TRUE, !.status = "canceled"] ELSE @[t]]]
+        \* HandleTaskChange / HandleStageChange find the job only while it is present
+        /\ job' = IF job[j].present
+                  THEN [job EXCEPT ![j].rep = [t \in DOMAIN @ |-> IF t \in R THEN [@[t] EXCEPT !.canceled = TRUE, !.status = "canceled"] ELSE @[t]]]
+                  ELSE job
         \* the stage goroutines assign lastErr in an order that is a race when a task failed in the same instant
         /\ \E le \in (IF hard THEN (IF sched[j].lastErr = "exit" THEN {"exit", "canceled"} ELSE {"canceled"}) ELSE {sched[j].lastErr}) :
               sched' = [sched EXCEPT ![j].cancelled = TRUE, ![j].lastErr = le]
-        /\ runs' = [runs EXCEPT ![j] = [t \in DOMAIN @ |-> IF t \in R THEN [@[t] EXCEPT !.outcome = "canceled", !.endedAt = clock, !.execAtEnd = IsRunning(job, j)] ELSE @[t]]]
+        /\ runs' = [runs EXCEPT ![j] = [t \in DOMAIN @ |-> IF t \in R THEN [@[t] EXCEPT !.outcome = "canceled", !.execAtEnd = job[j].present /\ IsRunning(job, j), !.goneAtEnd = ~job[j].present] ELSE @[t]]]
         /\ stop' = [stop EXCEPT ![j] = IF @.n > 0 THEN [@ EXCEPT !.n = 2]
                                         ELSE [n |-> 1, at |-> 0, begunBefore |-> [t \in Tasks(j) |-> runs[j][t].begun > 0],
                                               openBefore |-> [t \in Tasks(j) |-> t \in R]]]
+        /\ IF R # {} /\ job[j].present THEN ReqPersist ELSE UNCHANGED persist
   /\ ev' = [k |-> "RunnerCancel", j |-> j, t |-> 0, o |-> ""]
-  /\ NoStep /\ PreNext /\ Ticked
-  /\ UNCHANGED <<cfgv, epoch, waitList, shut, nops, nreloads, nticks, ack, last>>
+  /\ NoStep /\ PreNext
+  /\ UNCHANGED <<cfgv, epoch, waitList, shut, store, logs, nops, nreloads, nticks, ack, last, clock>>
 
 -----------------------------------------------------------------------------
 (* one pass of Scheduler.Schedule (taskctl/scheduler.go)                                       *)
@@ -332,19 +371,24 @@ Ready(j, sg) == {t \in Tasks(j) : sg[t] = "waiting" /\ \A d \in DepsOf(Ver(j), t
 SchedPass(j) ==
   IF IsDone(j) \/ sched[j].cancelled
   THEN /\ sched' = [sched EXCEPT ![j].pc = "exited"]
-       /\ UNCHANGED <<stage, running, job, runs>>
+       /\ UNCHANGED <<stage, running, job, runs, logs, persist>>
   ELSE LET sg1 == Blocked(j, stage[j], Len(Ver(j).tasks))
            R == Ready(j, sg1)
            E == {t \in R : Ver(j).tasks[t].empty}      \* empty script: Run returns at once, no callbacks
+           exec == job[j].present /\ IsRunning(job, j)
        IN /\ stage' = [stage EXCEPT ![j] = [t \in DOMAIN sg1 |-> IF t \in E THEN "done" ELSE IF t \in R THEN "running" ELSE sg1[t]]]
           /\ running' = [running EXCEPT ![j] = @ \cup (R \ E)]
-          /\ job' = [job EXCEPT ![j].rep = [t \in DOMAIN @ |-> IF t \in E THEN [@[t] EXCEPT !.status = "done"]
+          /\ job' = IF job[j].present
+                    THEN [job EXCEPT ![j].rep = [t \in DOMAIN @ |-> IF t \in E THEN [@[t] EXCEPT !.status = "done"]
                                                                   ELSE IF t \in R THEN [@[t] EXCEPT !.status = "running"] ELSE @[t]]]
+                    ELSE job
           /\ runs' = [runs EXCEPT ![j] = [t \in DOMAIN @ |-> IF t \in R
-                          THEN [@[t] EXCEPT !.begun = @ + 1, !.begunAt = clock, !.execAtBegin = IsRunning(job, j),
-                                            !.outcome = IF t \in E THEN "ok" ELSE @, !.endedAt = IF t \in E THEN clock ELSE @,
-                                            !.execAtEnd = IF t \in E THEN IsRunning(job, j) ELSE @]
+                          THEN [@[t] EXCEPT !.begun = IF @ < 2 THEN @ + 1 ELSE @, !.execAtBegin = exec, !.goneAtBegin = ~job[j].present,
+                                            !.outcome = IF t \in E THEN "ok" ELSE @,
+                                            !.execAtEnd = IF t \in E THEN exec ELSE @, !.goneAtEnd = IF t \in E THEN ~job[j].present ELSE @]
                           ELSE @[t]]]
+          /\ logs' = IF R \ E # {} THEN [logs EXCEPT ![j] = TRUE] ELSE logs
+          /\ IF R # {} /\ job[j].present THEN ReqPersist ELSE UNCHANGED persist
           /\ sched' = [sched EXCEPT ![j].pc = "polling"]
 
 \* first pass, right after startJob spawned the goroutine
@@ -352,102 +396,252 @@ FirstStep(j) ==
   /\ j \in Jobs /\ sched[j].pc = "fresh"
   /\ SchedPass(j)
   /\ ev' = [k |-> "Sched", j |-> j, t |-> 0, o |-> ""]
-  /\ NoStep /\ PreNext /\ Ticked
-  /\ UNCHANGED <<cfgv, epoch, rctx, cancelPending, waitList, shut, nops, nreloads, nticks, stop, ack, last>>
+  /\ NoStep /\ PreNext
+  /\ UNCHANGED <<cfgv, epoch, rctx, cancelPending, waitList, shut, store, nops, nreloads, nticks, stop, ack, last, clock>>
 
 \* a later pass: the loop wakes up from its pause (the driver advances the clock to that instant)
 Poll(j) ==
-  /\ Quiescent
+  /\ ClientOk
   /\ j \in Jobs /\ sched[j].pc = "polling"
   /\ SchedPass(j)
-  /\ ev' = [k |-> "Op", j |-> j, t |-> 0, o |-> ""]
-  /\ last' = [NoLast EXCEPT !.op = "poll", !.j = j]
-  /\ Step([op |-> "poll", p |-> 0, j |-> j, t |-> 0, o |-> "", v |-> 0, bad |-> "none"])
-  /\ PreNext /\ Ticked
-  /\ UNCHANGED <<cfgv, epoch, rctx, cancelPending, waitList, shut, nops, nreloads, nticks, stop, ack>>
+  /\ OpEv(j, 0, "")
+  /\ last' = KeepForced([NoLast EXCEPT !.op = "poll", !.j = j])
+  /\ Step(HStep("poll", 0, j, 0, "", 0, "none"))
+  /\ PreNext
+  /\ UNCHANGED <<cfgv, epoch, rctx, cancelPending, waitList, shut, store, nops, nreloads, nticks, stop, ack, clock>>
 
 -----------------------------------------------------------------------------
 (* a running task returns: HandleTaskChange (+ fail-fast cancel) + HandleStageChange           *)
 
 Finish(j, t, o) ==
-  /\ Quiescent
+  /\ ClientOk
   /\ j \in Jobs /\ t \in running[j]
   /\ running' = [running EXCEPT ![j] = @ \ {t}]
   /\ LET allow == Ver(j).tasks[t].allow
          hardFail == o = "fail" /\ ~allow
          p == job[j].p
-         failFast == hardFail /\ Def(p) /\ ~CurDef(p).cont
+         \* HandleTaskChange: only if the job is still known to the runner
+         failFast == hardFail /\ job[j].present /\ Def(p) /\ ~CurDef(p).cont
+         doCancel == failFast /\ ~job[j].canceled /\ ~job[j].completed
      IN /\ stage' = [stage EXCEPT ![j][t] = IF hardFail THEN "error" ELSE "done"]
-        /\ job' = [job EXCEPT ![j].rep[t] = [status |-> IF @.canceled THEN "canceled" ELSE IF hardFail THEN "error" ELSE "done",
-                                              errored |-> hardFail, canceled |-> @.canceled],
-                               ![j].creq = @ \/ (failFast /\ ~job[j].canceled /\ ~job[j].completed)]
+        /\ job' = IF job[j].present
+                  THEN [job EXCEPT ![j].rep[t] = [status |-> IF @.canceled THEN "canceled" ELSE IF hardFail THEN "error" ELSE "done",
+                                                   errored |-> hardFail, canceled |-> @.canceled],
+                                    ![j].creq = @ \/ doCancel]
+                  ELSE job
         /\ sched' = [sched EXCEPT ![j].lastErr = IF hardFail THEN "exit" ELSE @]
-        \* cancelJobInternal from HandleTaskChange: the job is started, not completed; no-op if already canceled
-        /\ cancelPending' = IF failFast /\ ~job[j].canceled /\ ~job[j].completed THEN cancelPending \cup {j} ELSE cancelPending
-        /\ runs' = [runs EXCEPT ![j][t].outcome = o, ![j][t].endedAt = clock, ![j][t].execAtEnd = IsRunning(job, j)]
-  /\ ev' = [k |-> "Op", j |-> j, t |-> t, o |-> o]
-  /\ last' = [NoLast EXCEPT !.op = "finish", !.j = j, !.t = t, !.o = o]
-  /\ Step([op |-> "finish", p |-> 0, j |-> j, t |-> t, o |-> o, v |-> 0, bad |-> "none"])
-  /\ PreNext /\ Ticked
-  /\ UNCHANGED <<cfgv, epoch, rctx, waitList, shut, nops, nreloads, nticks, stop, ack>>
+        /\ cancelPending' = IF doCancel THEN cancelPending \cup {j} ELSE cancelPending
+        /\ runs' = [runs EXCEPT ![j][t].outcome = o, ![j][t].execAtEnd = job[j].present /\ IsRunning(job, j), ![j][t].goneAtEnd = ~job[j].present]
+        /\ IF job[j].present THEN ReqPersist ELSE UNCHANGED persist
+  /\ OpEv(j, t, o)
+  /\ last' = KeepForced([NoLast EXCEPT !.op = "finish", !.j = j, !.t = t, !.o = o])
+  /\ Step(HStep("finish", 0, j, t, o, 0, "none"))
+  /\ PreNext
+  /\ UNCHANGED <<cfgv, epoch, rctx, waitList, shut, store, logs, nops, nreloads, nticks, stop, ack, clock>>
 
 -----------------------------------------------------------------------------
 (* JobCompleted(id, err): the loop exited and wg.Wait() passed                                 *)
 
 JobComplete(j) ==
   /\ j \in Jobs /\ sched[j].pc = "exited" /\ running[j] = {}
-  /\ LET allFinished == \A t \in Tasks(j) : job[j].rep[t].status = "done"
-         err == IF sched[j].lastErr # "" THEN sched[j].lastErr
-                ELSE IF job[j].creq /\ ~allFinished THEN "canceled" ELSE ""     \* repaired D4
-         S0 == [Bundle EXCEPT !.job[j].completed = TRUE, !.job[j].lastErr = err,
-                              !.job[j].canceled = (err = "canceled"), !.sched[j].pc = "done"]
-     IN ApplyBundle(Dequeue(S0, job[j].p))
+  /\ IF ~job[j].present
+     THEN \* purged job: JobCompleted returns early
+          /\ sched' = [sched EXCEPT ![j].pc = "done"]
+          /\ UNCHANGED <<job, waitList, persist>>
+     ELSE /\ LET allFinished == \A t \in Tasks(j) : job[j].rep[t].status = "done"
+                 err == IF sched[j].lastErr # "" THEN sched[j].lastErr
+                        ELSE IF job[j].creq /\ ~allFinished THEN "canceled" ELSE ""     \* repaired D4
+                 S0 == [Bundle EXCEPT !.job[j].completed = TRUE, !.job[j].lastErr = err,
+                                      !.job[j].canceled = (err = "canceled"), !.sched[j].pc = "done"]
+             IN ApplyBundle(Dequeue(S0, job[j].p))
+          /\ ReqPersist
   /\ ev' = [k |-> "JobCompleted", j |-> j, t |-> 0, o |-> ""]
-  /\ NoStep /\ PreNext /\ Ticked
-  /\ UNCHANGED <<cfgv, epoch, stage, running, rctx, cancelPending, shut, nops, nreloads, nticks, runs, stop, ack, last>>
+  /\ NoStep /\ PreNext
+  /\ UNCHANGED <<cfgv, epoch, stage, running, rctx, cancelPending, shut, store, logs, nops, nreloads, nticks, runs, stop, ack, last, clock>>
 
 -----------------------------------------------------------------------------
 (* StartDelayedJob(id): the start timer fires (exactly when due)                               *)
 
 TimerFire(j) ==
   /\ j \in Jobs /\ TimerDue(j)
-  /\ IF job[j].canceled
-     THEN /\ job' = [job EXCEPT ![j].timer = "none"]     \* returns early; timer object is spent
-          /\ UNCHANGED <<waitList, sched>>
-     ELSE ApplyBundle(Dequeue([Bundle EXCEPT !.job[j].timer = "none"], job[j].p))
+  /\ IF job[j].canceled \/ ~job[j].present
+     THEN /\ job' = [job EXCEPT ![j].timer = "none"]     \* returns early; the timer is spent
+          /\ UNCHANGED <<waitList, sched, persist>>
+     ELSE /\ ApplyBundle(Dequeue([Bundle EXCEPT !.job[j].timer = "none"], job[j].p))
+          /\ ReqPersist
   /\ ev' = [k |-> "Timer", j |-> j, t |-> 0, o |-> ""]
-  /\ NoStep /\ PreNext /\ Ticked
-  /\ UNCHANGED <<cfgv, epoch, stage, running, rctx, cancelPending, shut, nops, nreloads, nticks, runs, stop, ack, last>>
+  /\ NoStep /\ PreNext
+  /\ UNCHANGED <<cfgv, epoch, stage, running, rctx, cancelPending, shut, store, logs, nops, nreloads, nticks, runs, stop, ack, last, clock>>
 
-\* time passes by one tick for every job that has not started
+\* time passes by one tick
+NeedsTime == \/ \E j \in Jobs : job[j].timer = "armed"
+             \/ \E p \in P : Def(p) /\ CurDef(p).retPeriod > 0 /\ \E j \in Jobs : job[j].present /\ job[j].p = p /\ job[j].age <= DMAX
+AgeBy(jb, n) == [j \in 1 .. Len(jb) |->
+                   [jb[j] EXCEPT !.el = IF jb[j].started THEN @ ELSE IF @ + n <= DMAX THEN @ + n ELSE DMAX,
+                                 !.age = IF @ + n <= DMAX + 1 THEN @ + n ELSE DMAX + 1]]
 Tick ==
-  /\ Quiescent /\ nticks < MaxTicks
-  /\ \E j \in Jobs : job[j].timer = "armed"
+  /\ ClientOk /\ nticks < MaxTicks
+  /\ NeedsTime
   /\ nticks' = nticks + 1
-  /\ job' = [j \in Jobs |-> IF ~job[j].started /\ job[j].el < DMAX THEN [job[j] EXCEPT !.el = @ + 1] ELSE job[j]]
-  /\ ev' = [k |-> "Op", j |-> 0, t |-> 0, o |-> ""]
-  /\ last' = [NoLast EXCEPT !.op = "tick"]
-  /\ Step([op |-> "tick", p |-> 0, j |-> 0, t |-> 0, o |-> "", v |-> 0, bad |-> "none"])
-  /\ PreNext /\ Ticked
-  /\ UNCHANGED <<cfgv, epoch, stage, sched, running, rctx, cancelPending, waitList, shut, nops, nreloads, runs, stop, ack>>
+  /\ job' = AgeBy(job, 1)
+  /\ OpEv(0, 0, "")
+  /\ last' = KeepForced([NoLast EXCEPT !.op = "tick"])
+  /\ Step(HStep("tick", 0, 0, 0, "", 0, "none"))
+  /\ PreNext
+  /\ UNCHANGED <<cfgv, epoch, stage, sched, running, rctx, cancelPending, waitList, shut, store, logs, persist, nops, nreloads, runs, stop, ack, clock>>
 
 -----------------------------------------------------------------------------
 (* ReplaceDefinitions *)
 
 Reload(p, v) ==
-  /\ Quiescent /\ nreloads < MaxReloads /\ <<p, v>> \in Reloads /\ cfgv[p] # v
+  /\ ClientOk /\ nreloads < MaxReloads /\ <<p, v>> \in Reloads /\ cfgv[p] # v
   /\ nreloads' = nreloads + 1
   /\ cfgv' = [cfgv EXCEPT ![p] = v]
   /\ epoch' = [epoch EXCEPT ![p] = @ + 1]
-  /\ ev' = [k |-> "Op", j |-> 0, t |-> 0, o |-> ""]
-  /\ last' = [NoLast EXCEPT !.op = "reload", !.p = p]
-  /\ Step([op |-> "reload", p |-> p, j |-> 0, t |-> 0, o |-> "", v |-> v, bad |-> "none"])
-  /\ PreNext /\ Ticked
-  /\ UNCHANGED <<job, stage, sched, running, rctx, cancelPending, waitList, shut, nops, nticks, runs, stop, ack>>
+  /\ OpEv(0, 0, "")
+  /\ last' = KeepForced([NoLast EXCEPT !.op = "reload", !.p = p])
+  /\ Step(HStep("reload", p, 0, 0, "", v, "none"))
+  /\ PreNext
+  /\ UNCHANGED <<job, stage, sched, running, rctx, cancelPending, waitList, shut, store, logs, persist, nops, nticks, runs, stop, ack, clock>>
+
+-----------------------------------------------------------------------------
+(* SaveToStore: retention, then a snapshot of all jobs is written                             *)
+
+\* position of job j among the jobs of its pipeline, newest first (sort by Created descending)
+Rank(jb, j) == Cardinality({k \in 1 .. Len(jb) : jb[k].present /\ jb[k].p = jb[j].p /\ k > j})
+
+ShouldRemove(jb, j) ==
+  LET p == jb[j].p IN
+  IF ~Def(p) THEN TRUE
+  ELSE IF ~jb[j].started /\ ~jb[j].canceled THEN FALSE
+  ELSE IF ~jb[j].completed /\ ~jb[j].canceled THEN FALSE
+  ELSE IF CurDef(p).retPeriod > 0 /\ jb[j].age > CurDef(p).retPeriod THEN TRUE
+  ELSE CurDef(p).retCount > 0 /\ Rank(jb, j) >= CurDef(p).retCount
+
+\* what SaveToStore does to (job, waitList, logs, store); purged jobs disappear from the runner's maps
+SaveJobs(jb) == [j \in 1 .. Len(jb) |-> IF jb[j].present /\ ShouldRemove(jb, j) THEN [jb[j] EXCEPT !.present = FALSE] ELSE jb[j]]
+DoSave ==
+  LET jb1 == SaveJobs(job) IN
+  /\ job' = jb1
+  /\ waitList' = [p \in P |-> SelectSeq(waitList[p], LAMBDA j : jb1[j].present)]
+  /\ logs' = [j \in Jobs |-> logs[j] /\ jb1[j].present]
+  /\ store' = [j \in Jobs |-> IF jb1[j].present THEN [present |-> TRUE, rec |-> Persisted(jb1, j)] ELSE [present |-> FALSE]]
+
+Save ==
+  /\ ClientOk /\ "save" \in Features /\ nops < MaxOps
+  /\ nops' = nops + 1
+  /\ DoSave
+  /\ OpEv(0, 0, "")
+  /\ last' = KeepForced([NoLast EXCEPT !.op = "save"])
+  /\ Step(HStep("save", 0, 0, 0, "", 0, "none"))
+  /\ PreNext
+  /\ persist' = [persist EXCEPT !.stale = FALSE]
+  /\ UNCHANGED <<cfgv, epoch, stage, sched, running, rctx, cancelPending, shut, nreloads, nticks, runs, stop, ack, clock>>
+
+\* the persist loop: a pending request is served at once when the loop is idle, then it sleeps 3 s
+PersistSave ==
+  /\ PersistDue /\ GoroutinesIdle /\ \A j \in Jobs : ~TimerDue(j)
+  /\ DoSave
+  /\ persist' = [req |-> FALSE, pc |-> "sleeping", stale |-> FALSE]
+  /\ ev' = [k |-> "Persist", j |-> 0, t |-> 0, o |-> ""]
+  /\ NoStep /\ PreNext
+  /\ UNCHANGED <<cfgv, epoch, stage, sched, running, rctx, cancelPending, shut, nops, nreloads, nticks, runs, stop, ack, last, clock>>
+
+-----------------------------------------------------------------------------
+(* Shutdown(ctx)                                                                               *)
+
+\* under the lock: flag, every job on a wait list is marked canceled, the wait lists are dropped
+ShutdownBegin ==
+  /\ ClientOk /\ "shutdown" \in Features /\ shut = "no" /\ nops < MaxOps
+  /\ nops' = nops + 1
+  /\ LET W == {j \in Jobs : \E p \in P : \E i \in 1 .. Len(waitList[p]) : waitList[p][i] = j} IN
+     job' = [j \in Jobs |-> IF j \in W THEN [job[j] EXCEPT !.canceled = TRUE] ELSE job[j]]
+  /\ waitList' = [p \in P |-> <<>>]
+  \* first poll: nothing running => wg.Wait, final save, return
+  /\ shut' = IF NoneRunning THEN "finishing" ELSE "begun"
+  /\ OpEv(0, 0, "")
+  /\ last' = [NoLast EXCEPT !.op = "shutdown"]
+  /\ Step(HStep("shutdown", 0, 0, 0, "", 0, "none"))
+  /\ PreNext
+  /\ UNCHANGED <<cfgv, epoch, stage, sched, running, rctx, cancelPending, store, logs, persist, nreloads, nticks, runs, stop, ack, clock>>
+
+\* ctx.Done(): cancelJobInternal for every job, return ctx.Err() (then the deferred wg.Wait + save)
+ShutdownForce ==
+  /\ ClientOk /\ shut = "begun" /\ nops < MaxOps
+  /\ nops' = nops + 1
+  /\ LET C == {j \in Jobs : job[j].present /\ job[j].started /\ ~job[j].completed /\ ~job[j].canceled} IN
+     /\ cancelPending' = cancelPending \cup C
+     /\ job' = [j \in Jobs |-> IF j \in C THEN [job[j] EXCEPT !.creq = TRUE] ELSE job[j]]
+  /\ shut' = "forced"
+  /\ OpEv(0, 0, "")
+  /\ last' = [NoLast EXCEPT !.op = "force", !.forced = TRUE]
+  /\ Step(HStep("force", 0, 0, 0, "", 0, "none"))
+  /\ PreNext
+  /\ UNCHANGED <<cfgv, epoch, stage, sched, running, rctx, waitList, store, logs, persist, nreloads, nticks, runs, stop, ack, clock>>
+
+\* deferred part of Shutdown: wg.Wait() passed, final SaveToStore, return
+ShutdownFinish ==
+  /\ ShutdownCanFinish
+  /\ DoSave
+  /\ shut' = "returned"
+  /\ ev' = [k |-> "ShutdownRet", j |-> 0, t |-> 0, o |-> ""]
+  /\ NoStep /\ PreNext
+  /\ UNCHANGED <<cfgv, epoch, stage, sched, running, rctx, cancelPending, persist, nops, nreloads, nticks, runs, stop, ack, last, clock>>
+
+\* 3 s pass: the persist loop wakes up, the shutdown poll runs, all start timers become due,
+\* retention periods expire
+LongAdv ==
+  /\ ClientOk /\ nticks < MaxTicks
+  /\ persist.pc = "sleeping" \/ shut = "begun"
+  /\ nticks' = nticks + 1
+  /\ job' = AgeBy(job, DMAX + 1)
+  /\ persist' = [persist EXCEPT !.pc = "idle"]
+  /\ shut' = IF shut = "begun" /\ NoneRunning THEN "finishing" ELSE shut
+  /\ OpEv(0, 0, "")
+  /\ last' = KeepForced([NoLast EXCEPT !.op = "longadv"])
+  /\ Step(HStep("longadv", 0, 0, 0, "", 0, "none"))
+  /\ PreNext
+  /\ UNCHANGED <<cfgv, epoch, stage, sched, running, rctx, cancelPending, waitList, store, logs, nops, nreloads, runs, stop, ack, clock>>
+
+-----------------------------------------------------------------------------
+(* restart: a new runner is created on the content of the store (the old process is gone)      *)
+
+Restart ==
+  /\ ClientOk /\ "restart" \in Features /\ nops < MaxOps /\ shut \in {"no", "returned"}
+  /\ nops' = nops + 1
+  /\ job' = [j \in Jobs |->
+       IF ~store[j].present THEN [job[j] EXCEPT !.present = FALSE, !.timer = "none", !.lost = @ \/ job[j].present]
+       ELSE LET r == store[j].rec
+                wasRunning == r.started /\ ~r.completed /\ ~r.canceled
+                wasWaiting == ~r.started /\ ~r.canceled
+            IN [job[j] EXCEPT !.present = TRUE, !.started = r.started, !.completed = r.completed,
+                              !.canceled = r.canceled \/ wasRunning \/ wasWaiting,
+                              !.rst = @ \/ wasRunning \/ wasWaiting,
+                              !.lastErr = r.lastErr,        \* part of the persisted job (repaired D5)
+                              !.timer = "none", !.creq = FALSE,
+                              !.rep = [t \in DOMAIN r.rep |-> IF wasRunning /\ r.rep[t].status \in {"waiting", "running"}
+                                                               THEN [r.rep[t] EXCEPT !.status = "canceled"] ELSE r.rep[t]]]]
+  /\ stage' = [j \in Jobs |-> [t \in DOMAIN stage[j] |-> "done"]]
+  /\ sched' = [j \in Jobs |-> [pc |-> "none", cancelled |-> FALSE, lastErr |-> ""]]
+  /\ running' = [j \in Jobs |-> {}]
+  /\ rctx' = [j \in Jobs |-> FALSE]
+  /\ cancelPending' = {}
+  /\ waitList' = [p \in P |-> <<>>]
+  /\ shut' = "no"
+  /\ persist' = [req |-> FALSE, pc |-> "idle", stale |-> TRUE]
+  /\ ev' = [k |-> "Restart", j |-> 0, t |-> 0, o |-> ""]
+  /\ last' = [NoLast EXCEPT !.op = "restart"]
+  /\ Step(HStep("restart", 0, 0, 0, "", 0, "none"))
+  \* the tasks that were executing died with the old process
+  /\ runs' = [j \in Jobs |-> [t \in DOMAIN runs[j] |-> IF t \in running[j] THEN [runs[j][t] EXCEPT !.outcome = "lost", !.execAtEnd = TRUE] ELSE runs[j][t]]]
+  /\ PreNext
+  /\ UNCHANGED <<cfgv, epoch, store, logs, nreloads, nticks, stop, ack, clock>>
 
 -----------------------------------------------------------------------------
 
 Internal == \/ \E j \in Jobs : FirstStep(j) \/ CancelDeliver(j) \/ JobComplete(j) \/ TimerFire(j)
+            \/ PersistSave
+            \/ ShutdownFinish
 
 Client == \/ \E p \in P : \E b \in BadKinds : Schedule(p, b)
           \/ \E j \in 1 .. Len(job) + 1 : Cancel(j)
@@ -455,18 +649,28 @@ Client == \/ \E p \in P : \E b \in BadKinds : Schedule(p, b)
           \/ \E j \in Jobs : \E t \in running[j] : \E o \in {"ok", "fail"} : Finish(j, t, o)
           \/ Tick
           \/ \E p \in P : \E v \in 0 .. Len(VerTable) : Reload(p, v)
+          \/ Save \/ ShutdownBegin \/ ShutdownForce \/ LongAdv \/ Restart
 
 Next == (Internal \/ Client) /\ obs' = IF Gen THEN obs ELSE ObsSt'
 
 Spec == Init /\ [][Next]_vars
 
+\* compact view of a state for TLC error traces (ALIAS in the cfg files)
+Alias == [ev |-> ev.k, op |-> ToString(<<last.op, last.p, last.j, last.t, last.o, last.res>>), cfgv |-> cfgv, shut |-> shut, persist |-> ToString(persist),
+          wl |-> ToString(waitList), cancelPending |-> cancelPending,
+          jobs |-> [j \in Jobs |-> ToString(<<job[j].ver, IF job[j].present THEN "P" ELSE "-", IF job[j].started THEN "S" ELSE "-",
+                                     IF job[j].completed THEN "C" ELSE "-", IF job[j].canceled THEN "X" ELSE "-", job[j].lastErr,
+                                     job[j].timer, job[j].el, job[j].age, sched[j].pc, running[j],
+                                     [t \in Tasks(j) |-> job[j].rep[t].status],
+                                     IF store[j].present THEN "stored" ELSE "nostore", logs[j]>>)],
+          quiet |-> obs.quiet, idle |-> obs.idle, ostore |-> ToString(obs.store), agrees |-> Pr!StoreAgrees, pwi |-> Pr!C11_PersistWithinInterval, phase |-> obs.phase, listed |-> ToString([j \in Jobs |-> obs.jobs[j].listed])]
+
 \* fairness for the liveness configs: goroutines run, timers fire, tasks terminate, loops poll
 Fair == /\ \A j \in 1 .. MaxJobs : WF_vars(FirstStep(j)) /\ WF_vars(CancelDeliver(j)) /\ WF_vars(JobComplete(j))
                                     /\ WF_vars(TimerFire(j)) /\ WF_vars(Poll(j))
                                     /\ WF_vars(\E t \in 1 .. 4 : Finish(j, t, "ok"))
-        /\ WF_vars(Tick)
+        /\ WF_vars(Tick) /\ WF_vars(PersistSave) /\ WF_vars(ShutdownFinish) /\ WF_vars(LongAdv)
 FairSpec == Spec /\ Fair
-
 
 (* the Props formulas under the refinement mapping, named for the cfg files *)
 PrC01_LimitAtStart == Pr!C01_LimitAtStart
@@ -474,7 +678,6 @@ PrC01_RunInsideSpan == Pr!C01_RunInsideSpan
 PrC01_RunLimit == Pr!C01_RunLimit
 PrC02_AtMostOnce == Pr!C02_AtMostOnce
 PrC02_DepsFirst == Pr!C02_DepsFirst
-PrC08_NoRunAfterFailedDep == Pr!C08_NoRunAfterFailedDep
 PrC02_SuccessMeansAll == Pr!C02_SuccessMeansAll
 PrC02_CyclicNeverRuns == Pr!C02_CyclicNeverRuns
 PrC02_AcyclicCompletes == Pr!C02_AcyclicCompletes
@@ -494,11 +697,29 @@ PrC07_NotBefore == Pr!C07_NotBefore
 PrC07_NeverStartedNeverRuns == Pr!C07_NeverStartedNeverRuns
 PrC07_NewestWins == Pr!C07_NewestWins
 PrC07_NewestRuns == Pr!C07_NewestRuns
+PrC08_NoRunAfterFailedDep == Pr!C08_NoRunAfterFailedDep
 PrC08_FailFast == Pr!C08_FailFast
 PrC08_FailFastNoNewTask == Pr!C08_FailFastNoNewTask
 PrC08_Continue == Pr!C08_Continue
 PrC08_VerdictSound == Pr!C08_VerdictSound
 PrC08_NoRunningAfterCompleted == Pr!C08_NoRunningAfterCompleted
+PrC10_AllTerminal == Pr!C10_AllTerminal
+PrC10_NoGhosts == Pr!C10_NoGhosts
+PrC10_SameSet == Pr!C10_SameSet
+PrC10_FinishedFaithful == Pr!C10_FinishedFaithful
+PrC11_AllTerminal == Pr!C11_AllTerminal
+PrC11_StoreMatches == Pr!C11_StoreMatches
+PrC11_RejectAfter == Pr!C11_RejectAfter
+PrC11_GracefulRunsOut == Pr!C11_GracefulRunsOut
+PrC11_ForcedCancels == Pr!C11_ForcedCancels
+PrC11_PersistWithinInterval == Pr!C11_PersistWithinInterval
+PrC12_KeepsUnfinished == Pr!C12_KeepsUnfinished
+PrC12_NoSettingsNoRemoval == Pr!C12_NoSettingsNoRemoval
+PrC12_NewestFirstClosure == Pr!C12_NewestFirstClosure
+PrC12_CountBound == Pr!C12_CountBound
+PrC12_PeriodBound == Pr!C12_PeriodBound
+PrC12_UndefinedPurged == Pr!C12_UndefinedPurged
+PrC12_ThreeViewsAgree == Pr!C12_ThreeViewsAgree
 PrC15_SchedulableIffAccepted == Pr!C15_SchedulableIffAccepted
 PrC15_RunningIffExecuting == Pr!C15_RunningIffExecuting
 PrC15_ListedFromReturn == Pr!C15_ListedFromReturn
@@ -508,18 +729,20 @@ PrC15_TaskOrder == Pr!C15_TaskOrder
 PrC16_SnapshotRuns == Pr!C16_SnapshotRuns
 PrC16_ReloadIsInert == Pr!C16_ReloadIsInert
 PrC16_AllTerminalAtDrain == Pr!C16_AllTerminalAtDrain
+
 -----------------------------------------------------------------------------
 (* model-level sanity invariants (about the design itself) *)
 
 TypeOK == /\ \A p \in P : \A i \in 1 .. Len(waitList[p]) : waitList[p][i] \in Jobs
 WaitListSound == \A p \in P : \A i \in 1 .. Len(waitList[p]) :
-                    LET j == waitList[p][i] IN ~job[j].started /\ ~job[j].canceled /\ job[j].p = p
+                    LET j == waitList[p][i] IN ~job[j].started /\ ~job[j].canceled /\ job[j].p = p /\ job[j].present
 WaitListComplete == \A j \in Jobs : (job[j].present /\ ~job[j].started /\ ~job[j].canceled /\ shut = "no")
                     => \E i \in 1 .. Len(waitList[job[j].p]) : waitList[job[j].p][i] = j
 
 \* temporal forms (checked under FairSpec)
 L_C03 == \A j \in 1 .. MaxJobs :
-            (j \in Jobs /\ ~job[j].started /\ ~job[j].canceled)
-               ~> (j \in Jobs /\ (job[j].started \/ job[j].canceled \/ ~Def(job[j].p)))
-L_C04 == \A j \in 1 .. MaxJobs : (j \in cancelPending) ~> (j \in Jobs /\ job[j].completed)
+            (j \in Jobs /\ job[j].present /\ ~job[j].started /\ ~job[j].canceled)
+               ~> (j \in Jobs /\ (job[j].started \/ job[j].canceled \/ ~Def(job[j].p) \/ ~job[j].present))
+L_C04 == \A j \in 1 .. MaxJobs : (j \in cancelPending) ~> (j \in Jobs /\ (job[j].completed \/ ~job[j].present))
+L_C11 == (shut \in {"begun", "forced", "finishing"}) ~> (shut = "returned")
 =============================================================================
